@@ -475,7 +475,7 @@ func (fc *FnCtx) havocTarget(st, pre *State, tg assignTarget) {
 			old := fc.smt.defineAlways("old", inner, app("select", h, tg.s.Ref))
 			na := fc.smt.declare("hav", inner)
 			j := fc.smt.freshName("j")
-			in := and(app("bvsle", tg.lo, j), app("bvslt", j, tg.hi))
+			in := app("bvult", app("bvsub", j, tg.lo), app("bvsub", tg.hi, tg.lo))
 			fc.smt.addExtra(na, fmt.Sprintf("(forall ((%s (_ BitVec 64))) (! (=> (not %s) (= (select %s %s) (select %s %s))) :pattern ((select %s %s))))", j, in, na, j, old, j, na, j))
 			fc.setHeap(st, key, app("store", h, tg.s.Ref, na))
 		}
